@@ -618,6 +618,8 @@ def slice_value(I: Any, base: Term, lo: Optional[Term], hi: Optional[Term], st: 
     if base[0] == "obj" and st.heap[base[1]].kind == "list" and not st.heap[base[1]].symbolic:
         from .interp import HeapObj
         return st.alloc(HeapObj("list", None, {}, st.heap[base[1]].items[l:h]))
+    if base[0] == "sym" and isinstance(base[2], tuple) and base[2] and base[2][0] == "list" and (l is None or l >= 0) and (h is None or h >= 0):
+        return ("slicelist", base, l or 0, h)
     return app("slice", [base, lo or c(None), hi or c(None)])
 
 
